@@ -299,6 +299,8 @@ func C01(p *ir.Program, r *report.R) {
 	quorumRules(c)
 	// a commit decided elsewhere is adopted (fast sync, last commit of a block) only through VerifyCommit
 	verifyCommitTally(c)
+	// polka rule "in that round": no step of a later round before that round was entered (shared with C17)
+	roundEnteredBeforeStep(c)
 }
 
 // c01EntryGuards interprets the first guard of each enter* function over
